@@ -16,7 +16,8 @@ evidence histogram):
 * `h… <n> (<mode> <topology> <keyspaces>)×n <strategy> <dc|-> <token>` — a history: `n` builds the cluster, `r` / `t`
   full / topology-only refresh (keyspaces `=`) with a rejecting host filter, `R` / `T` with an accepting one,
   `F` / `G` with a per-peer verdict (peer flag `a` = accepted; the old nodes' enabled-ness is not cleared).
-  Output: the observation after every step plus `arms=` (per peer the arm of the node-reuse match), joined by ` / `.
+  Output: the observation after every step plus `arms=` (per peer the arm of the node-reuse match) and `pool=` (per peer
+  whether its node object has a connection pool), joined by ` / `.
 * `p <L|P> <row>` — one `system.local` / `system.peers` row → `Peer` (checker for the random dummy token).
 * `v <token counts|->` — `validate_peers`.
 * `s <options>` — replication option map → `Strategy`.
@@ -51,6 +52,13 @@ verdict (false for the rejecting hooks, true for the accepting ones). -/
 def toMPeers (t : Topology) (accepted : Bool) : List MPeer :=
   (t.zipIdx).map (fun (p, i) => ⟨p.node, i, p.tokens, accepted⟩)
 
+/-- The address of a peer: its position in the list, or `200 + k` for the peers of address group `g<k>` (several
+nodes sharing one address). -/
+def addrOf (flags : String) (pos : Nat) : Nat :=
+  match flags.toList.dropWhile (· != 'g') with
+  | _ :: d :: _ => if '0' ≤ d ∧ d ≤ '9' then 200 + (d.toNat - 48) else pos
+  | _ => pos
+
 def armLetter : Arm → Char
   | .reused => 'c'
   | .inherited => 'i'
@@ -69,7 +77,7 @@ def runHistory (strat : Strategy) (dc : Option Nat) (tok : Int) :
       let t : Topology := tx.map (·.1)
       -- the host filter's verdict: nobody (r, t), everybody (R, T), the peers flagged `a` (F, G)
       let peers : List MPeer := (tx.zipIdx).map (fun (p, i) =>
-        ⟨p.1.node, i, p.1.tokens, mode == "R" || mode == "T" || ((mode == "F" || mode == "G") && p.2.contains 'a')⟩)
+        ⟨p.1.node, addrOf p.2 i, p.1.tokens, mode == "R" || mode == "T" || ((mode == "F" || mode == "G") && p.2.contains 'a')⟩)
       let ids := (tx.filter (fun p => !p.2.contains 'd')).map (·.1.node.id)
       let before : Option CState :=
         match mode, st with
@@ -93,8 +101,11 @@ def runHistory (strat : Strategy) (dc : Option Nat) (tok : Int) :
           let st' := st'.setEnabled ids
           let arms := String.ofList (peers.map (fun p => armLetter (pickArm b.known p)))
           let arms := if arms.isEmpty then "-" else arms
+          -- the real pool presence of every node object (`pool.is_some()`, not the override)
+          let pools := String.ofList (peers.map (fun p => if (pickNode b.known p).pool then '1' else '0'))
+          let pools := if pools.isEmpty then "-" else pools
           runHistory strat dc tok rest (some st') last'
-            ((observeLine st'.loc st'.keyspaces last' strat dc tok ++ " arms=" ++ arms) :: acc)
+            ((observeLine st'.loc st'.keyspaces last' strat dc tok ++ " arms=" ++ arms ++ " pool=" ++ pools) :: acc)
   | _, _, _, _ => none
 
 /-- `dummies=<id>:<token>,…` at the head of the implementation's line of an `m` case. -/
@@ -123,6 +134,8 @@ def runRows (rows : List Row) (opts : List (List (String × String))) (ksIdx : N
     match validatePeers peers with
     | .error e => "invalid " ++ ((validateLine (.error e)).drop 4).toString
     | .ok _ =>
+      -- one unreadable replication map fails the whole fetch (`query_keyspaces`, `KeyspacesMetadataError::Strategy`)
+      if opts.any (fun m => (strategyFromOptions m).toOption.isNone) then "invalid strategy" else
       let fetched : Fetched := opts.zipIdx.map (fun (m, i) => (i, (strategyFromOptions m).toOption.map toStrategy))
       let st := CState.fresh (toMPeers (peersToTopology peers) false) fetched
       let strat := (st.keyspaces.lookup ksIdx).getD .localStrategy
